@@ -80,6 +80,7 @@ var scanPhase = map[string]bool{"scanProject": true, "drainCurrentScanner": true
 
 func extractBuildTable(repo string) *buildTable {
 	t := &buildTable{CallSeq: map[string][]string{}}
+	coreFuncs := map[string]*ast.FuncDecl{}
 	fset := token.NewFileSet()
 	wanted := []string{"processJApiProject", "compileCore", "buildCatalog", "compileCatalog", "validateCatalog", "addDirectives", "addDirectiveBranch", "addDirective"}
 	want := map[string]bool{}
@@ -102,9 +103,7 @@ func extractBuildTable(repo string) *buildTable {
 			if !ok || fd.Body == nil {
 				continue
 			}
-			if scanPhase[fd.Name.Name] && fd.Recv != nil {
-				t.ScanCalls = append(t.ScanCalls, scanCall{fd.Name.Name, allCalls(fd)})
-			}
+			coreFuncs[fd.Name.Name] = fd
 			if want[fd.Name.Name] && fd.Recv != nil {
 				if _, dup := t.CallSeq[fd.Name.Name]; dup {
 					problem("buildtable: %s defined twice", fd.Name.Name)
@@ -142,6 +141,38 @@ func extractBuildTable(repo string) *buildTable {
 					return true
 				})
 			}
+		}
+	}
+	// the call sequences of the scan phase, FLATTENED: a call of another function or method of package core is followed by
+	// that function's own calls (so that extracting a helper does not change the order facts read off the sequence)
+	var flat func(name string, depth int, seen map[string]bool) []string
+	flat = func(name string, depth int, seen map[string]bool) []string {
+		fd := coreFuncs[name]
+		if fd == nil || depth > 4 || seen[name] {
+			return nil
+		}
+		seen[name] = true
+		defer delete(seen, name)
+		var out []string
+		for _, c := range allCalls(fd) {
+			out = append(out, c)
+			callee := c
+			if strings.HasPrefix(c, "core.") && strings.Count(c, ".") == 1 {
+				callee = strings.TrimPrefix(c, "core.")
+			} else if strings.Contains(c, ".") {
+				continue
+			}
+			if !scanPhase[callee] { // the functions of the scan phase have their own entry: not expanded inside one another
+				out = append(out, flat(callee, depth+1, seen)...)
+			}
+		}
+		return out
+	}
+	for name := range scanPhase {
+		if fd := coreFuncs[name]; fd != nil && fd.Recv != nil {
+			t.ScanCalls = append(t.ScanCalls, scanCall{name, flat(name, 0, map[string]bool{})})
+		} else {
+			problem("buildtable: function %s of the scan phase not found in core", name)
 		}
 	}
 	for _, w := range wanted {
